@@ -11,6 +11,11 @@ EXPRESSION_PARTS = (
     'or_test and_test not_test comparison '
     'expr xor_expr and_expr shift_expr arith_expr term factor power atom_expr'
 ).split()
+# Parents in which an inlined expression that binds less tightly than a name
+# (e.g. a ternary or a lambda) would change the meaning or be invalid syntax.
+_INLINE_NEEDS_PARENTHESES = EXPRESSION_PARTS + [
+    'test', 'star_expr', 'comp_for', 'sync_comp_for', 'comp_if'
+]
 
 
 class ChangedFile:
@@ -220,7 +225,7 @@ def inline(inference_state, names):
         path = name.get_root_context().py__file__()
         s = replace_code
         if rhs.type == 'testlist_star_expr' \
-                or tree_name.parent.type in EXPRESSION_PARTS \
+                or tree_name.parent.type in _INLINE_NEEDS_PARENTHESES \
                 or tree_name.parent.type == 'trailer' \
                 and tree_name.parent.get_next_sibling() is not None:
             s = '(' + replace_code + ')'
